@@ -220,8 +220,8 @@ def run(tier, seed):
     total = Stats()
     counts = {}
     if tier == 'thorough':
-        plans = [(ROOT_A, DECLS + OPS_A, 4), (ROOT_A, FOCUS_V, 6),
-                 (ROOT_A, FOCUS_P, 6), (ROOT_N, DECLS_N + OPS_N, 6)]
+        plans = [(ROOT_A, DECLS + OPS_A, 3), (ROOT_A, FOCUS_V, 5),
+                 (ROOT_A, FOCUS_P, 5), (ROOT_N, DECLS_N + OPS_N, 5)]
     else:
         nosecond = [n for n in OPS_A if not n.endswith('#2')]
         plans = [(ROOT_A, DECLS + nosecond, 3), (ROOT_A, FOCUS_V, 4),
